@@ -48,13 +48,18 @@ def eval_call(I: Interp, node: ast.Call, fr: Frame):
             saved = st.heap
             st.heap = st.old_stack[-1]
             top = st.old_stack.pop()
+            saved_ep, saved_ev = st.epoch, st.events_len
+            st.epoch = st.heap.get("__epoch__", st.epoch_entry)
+            st.events_len = st.heap.get("__evlen__", st.events_len_entry)
             try:
                 return I.ev(node.args[0], fr)
             finally:
+                st.epoch, st.events_len = saved_ep, saved_ev
                 st.old_stack.append(top)
                 # arrays lazily created while evaluating under the old heap belong to both
                 for k, v in st.heap.items():
-                    saved.setdefault(k, v)
+                    if not k.startswith("__"):
+                        saved.setdefault(k, v)
                 st.heap = saved
         if n in ("forall", "exists"):
             return quantifier(I, node, fr, n)
@@ -75,6 +80,32 @@ def eval_call(I: Interp, node: ast.Call, fr: Frame):
         if n == "ite":
             c = I.truthy(I.ev(node.args[0], fr))
             return I.merge(c, I.ev(node.args[1], fr), I.ev(node.args[2], fr))
+        if n == "epoch":
+            return SV(smt.mk_int(st.epoch), T.INT)
+        if n == "n_events":
+            return SV(smt.mk_int(st.events_len), T.INT)
+        if n == "unchanged":  # no object that existed at entry has been written
+            old_ep = st.old_stack[-1].get("__epoch__", st.epoch_entry) if st.old_stack else st.epoch_entry
+            return I.as_bool_sv(st.epoch == old_ep)
+        if n == "seq":  # abstract value of a list's content (uninterpreted function of elements array and length)
+            a0 = node.args[0]
+            if isinstance(a0, ast.Subscript) and isinstance(a0.slice, ast.Slice):
+                base = I.to_sv(I.ev(a0.value, fr))
+                return SV(I.slice_seqid(base, a0.slice, fr), T.ANY)
+            v = I.to_sv(I.ev(a0, fr))
+            return SV(z3.Select(st.arr("f:$seq"), smt.rid(v.t)), T.ANY)
+        if n in REG.ufuns:
+            nargs, ret = REG.ufuns[n]
+            args = [I.to_sv(I.ev(a, fr)).t for a in node.args]
+            if len(args) != nargs:
+                raise Refuse(f"ufun {n}: arity")
+            F = z3.Function("uf_" + n, *([smt.Val] * nargs + [smt.Val]))
+            rty = {"bool": T.BOOL, "int": T.INT, "str": T.STR}.get(ret, T.ANY)
+            res = SV(F(*args), rty)
+            w = st.wt(rty, res.t)
+            if w is not None:
+                st.assume(w)
+            return res
         if n == "fresh":  # fresh(x): x was allocated during this call
             v = I.to_sv(I.ev(node.args[0], fr))
             base = st.fresh_base[-1] if st.fresh_base else st.alloc_entry
@@ -176,17 +207,38 @@ def apply_callable(I: Interp, callee, args, kwargs, fr, node=None):
         if isinstance(callee.c, tuple) and callee.c[0] == "callable":
             target = st.cfg["_callables"][callee.c[1]]
             return apply_callable(I, target, args, kwargs, fr, node)
-        hook = st.cfg.get("dynamic_call")
-        if hook is not None:
-            r = hook(I, callee, args, kwargs, fr, node)
-            if r is not NotImplemented:
-                return r
-        if callee.ty.k == "obj":
-            m = callee.ty.a[0].find_method("__call__")
+        if T.strip_opt(callee.ty).k == "obj":
+            if callee.ty.k == "opt":
+                st.oblige("safety", "call_of_none", z3.Not(smt.is_none(callee.t)), getattr(node, "lineno", 0))
+            m = T.strip_opt(callee.ty).a[0].find_method("__call__")
             if m is not None:
-                return call_function(I, m, callee, args, kwargs, fr, node)
+                return call_function(I, m, SV(callee.t, T.strip_opt(callee.ty)), args, kwargs, fr, node)
+        if callee.ty.k in ("callable", "any"):
+            return dynamic_call(I, callee, args, kwargs, fr, node)
         raise Refuse(f"call of symbolic value of type {callee.ty} at line {getattr(node, 'lineno', '?')}")
     raise Refuse(f"call of {type(callee).__name__}")
+
+
+def dynamic_call(I: Interp, callee: SV, args, kwargs, fr, node):
+    """Call of a value only known to be callable.  The contract of the function under verification may name classes
+    whose instances are called through their own `__call__` contract (`dyn_classes`); anything else is an unknown
+    callable: it may do anything to the heap (havoc), and a `handler` event is logged."""
+    from .lib import isinstance_pred
+    st = I.st
+    top: Contract = st.cfg.get("contract")
+    for cname in (top.dyn_classes if top is not None else []):
+        ci = I.repo.class_by_name(cname)
+        m = ci.find_method("__call__")
+        if st.branch(isinstance_pred(I, callee, PClass(ci))):
+            return call_function(I, m, SV(callee.t, T.OBJ(ci)), args, kwargs, fr, node)
+    st.log.append("unknown callable invoked: heap havocked, result unconstrained, `handler` event logged")
+    havoc(I, ["heap"], fr)
+    append_event(st, "handler", [callee.t])
+    rty = T.ANY
+    if top is not None and top.dyn_result:
+        rty = T.parse_ann(parse_expr(top.dyn_result), fr.module, fr.cls)
+        st.log.append(f"unknown callable assumed to return {top.dyn_result}")
+    return st.fresh_val("dyn_ret", rty)
 
 
 def quantifier(I: Interp, node, fr, which):
@@ -445,7 +497,11 @@ def apply_contract(I: Interp, con: Contract, finfo: FuncInfo, selfv, args, kwarg
     line = getattr(node, "lineno", 0)
     for label, e in con.requires:
         st.oblige("callpre", f"{finfo.qualname}.{label}@L{line}", spec_bool(I, e, sf), line)
+    for label, e in con.axioms:
+        st.assume(spec_bool(I, e, sf))
     old = dict(st.heap)
+    old["__epoch__"] = st.epoch
+    old["__evlen__"] = st.events_len
     old_alloc = st.alloc
     if con.raises and not st.guards and not st.spec_depth:
         # the callee may raise (only) under the conditions its contract lists
@@ -520,11 +576,28 @@ def havoc(I: Interp, modifies: Optional[List[str]], sf: Frame):
     st = I.st
     if modifies is None:
         modifies = ["heap"]
+    if [m for m in modifies if m.strip() != "alloc"]:
+        e2 = st.fresh("epoch", smt.I)
+        st.assume(e2 >= st.epoch)
+        saved_epoch = e2
+    else:
+        saved_epoch = st.epoch
+    try:
+        _havoc(I, modifies, sf)
+    finally:
+        st.epoch = saved_epoch
+
+
+def _havoc(I: Interp, modifies, sf: Frame):
+    st = I.st
     for m in modifies:
         m = m.strip()
         if m == "heap":
+            ev2 = st.fresh("evlen", smt.I)
+            st.assume(ev2 >= st.events_len)
+            st.events_len = ev2
             for k in list(st.heap.keys()):
-                if k == "cls":
+                if k == "cls" or k.startswith("__"):
                     continue
                 st.setarr(k, z3.Const(f"Hv{st.n_fresh}_{k}", st.heap[k].sort()))
                 st.n_fresh += 1
